@@ -156,7 +156,7 @@ def step : List String → String
         else if !zetasOk zs then "err-cert"
         else
           let st0 : St := { x := x0, logd := logd0, grad := grad0, scale := scale0 }
-          let stp := stepLeaf k isInt
+          let stp := stepLeafX k isInt
           let fmt (chain : List St) (acc : List (List Bool)) (trace : List (List XVal)) (nUpd : Nat) : String :=
             s!"{fmtMat (chain.map (·.x))} {fmtXs (chain.map (·.logd))} {fmtMat (chain.map (·.grad))} {fmtMat (chain.map (·.scale))} {fmtBitRows acc} {fmtXRows trace} {nUpd}"
           if mode = "S" then
@@ -192,7 +192,7 @@ def step : List String → String
           else
             let st0 : St := { x := x0, logd := logd0, grad := grad0, scale := scale0 }
             let s0 := smpInit width st0 lam0
-            let S := runSessionT k.tuner k.window dim width (fun _ => stepLeaf k isInt)
+            let S := runSessionT k.tuner k.window dim width (fun _ => stepLeafX k isInt)
               (fun n _ _ => inits.getD n (.nan, [])) s0 { tgt := 0, s := s0, nInit := 0 } phs
             let s := S.s
             if s.nUpd > ns.length ∨ s.nUpd > zs.length ∨ S.nInit > inits.length then "err-leaf"
